@@ -88,8 +88,8 @@ func c15r1(c *RC) {
 		}
 		return false
 	}, opts, except)
-	c.Floor("error-returning storage calls in exec/store.go", n1, 12)
-	c.Floor("store call sites in the worker", n2, 9)
+	c.Floor("error-returning storage calls in exec/store.go", n1, 8)
+	c.Floor("store call sites in the worker", n2, 6)
 	c.Note("%d sites in store.go, %d store call sites elsewhere in exec", n1, n2)
 }
 
